@@ -121,6 +121,7 @@ type TopCtx struct {
 	Args     []Val
 	ArgNames []string
 	Lets     map[string]Val
+	Demands  []*Term
 }
 
 func (m *Machine) Clone() *Machine {
